@@ -149,6 +149,14 @@ func (o *oracle) onWrite(wr store.Write) {
 		if o.affState(key) == "" && state != "" {
 			o.checkCap(k.Host, cidr, wr, seq)
 		}
+		if act := o.actorOf(wr.Actor); act != nil && act.cur != nil {
+			if state == string(model.StatePendingDeletion) && act.host != k.Host && act.cur.kind == opAutoAssign {
+				w.r.Probe("reclaim_of_foreign_empty_block_started")
+			}
+			if o.affState(key) == string(model.StatePendingDeletion) && state == string(model.StatePending) && act.host == k.Host {
+				w.r.Probe("owner_revives_claim_marked_for_deletion")
+			}
+		}
 		o.aff[key] = append(o.aff[key], affEvent{seq: seq, state: state})
 		w.r.Logf("  aff %s -> %q (by %s)", key, state, wr.Actor)
 		if state == string(model.StateConfirmed) {
@@ -246,6 +254,9 @@ func (o *oracle) checkAffinities(cidr string, seq int) {
 	}
 	r.Check("one_confirmed_owner", len(confirmed) <= 1, "block %s is confirmed as affine to %v at event %d", cidr, confirmed, seq)
 	if len(confirmed) == 1 {
+		// A confirmed claim is backed by the block's own record: every path that removes a block (or its
+		// affinity field) first takes the claim out of the confirmed state with a compare-and-swap.
+		r.Check("confirmed_claim_has_block", o.blocks[cidr] != nil, "%s holds a confirmed claim on block %s, but the block does not exist (event %d)", confirmed[0], cidr, seq)
 		if b := o.blocks[cidr]; b != nil {
 			r.Check("block_matches_confirmed_claim", b.affinity == "" || b.affinity == confirmed[0],
 				"block %s records affinity %q but the confirmed claim is held by %q (event %d)", cidr, b.affinity, confirmed[0], seq)
